@@ -171,7 +171,10 @@ def build(case, policy, sched_mod=None):
     lk = getattr(fut, "_FutureResult__lock", None)
     if lk is not None and hasattr(lk, "_sname"):
         ctl.name(lk, "lock")
-    h.result_obj = object()
+    # the value a task returns may itself be an exception instance (a task that RETURNS an error object): it is a result like any
+    # other.  Which programs get such a value is a function of the program, so that replays are exact.
+    h.result_obj = (KeyError("a returned value that happens to be an exception instance")
+                    if (len(case["regs"]) + len(case["obs"])) % 2 else object())
     h.exc_obj = ValueError("task failed")
     body_kind = case["body"]
 
